@@ -265,6 +265,7 @@ def run_all(mod, ctx, prop):
     ctx.each(loop_carried_rule, ctx, ctx.repo, "R%sx" % prop[1:], mods)
     ctx.each(loop_dependence_rule, ctx, ctx.repo, "R%sy" % prop[1:], mods)
     ctx.each(raw_quotient_truncation_rule, ctx, ctx.repo, "R%sz" % prop[1:], mods)
+    ctx.each(loop_scope_rule, ctx, ctx.repo, "R%st" % prop[1:], mods)
 
 
 def _names(e):
@@ -494,3 +495,74 @@ def raw_quotient_truncation_rule(ctx, repo, rule_id, modules):
     ctx.note(rule_id, "%d truncating calls inspected" % n)
     if n:
         ctx.ok(rule_id, ", ".join(modules), "%d truncating calls: none applied to a raw quotient by a step" % n)
+
+
+def loop_targets_read_after(repo, fi):
+    """(loop target name, loop) pairs whose value is read after the loop has ended while the loop's own binding still reaches the read"""
+    from . import common as K
+
+    loops = [l for l in own_nodes(fi.node) if isinstance(l, ast.For)]
+    if not loops:
+        return []
+    rd = K.rdefs(repo, fi)
+    out = []
+    for lp in loops:
+        tv = _names(lp.target)
+        inside = {id(x) for x in ast.walk(lp)}
+        hdr = set(rd.cfg.ids(lp))
+        seen = set()
+        for r in own_nodes(fi.node):
+            if isinstance(r, ast.Name) and isinstance(r.ctx, ast.Load) and r.id in tv and id(r) not in inside and r.id not in seen and r.lineno > lp.end_lineno:
+                if any(isinstance(a, (ast.ListComp, ast.SetComp, ast.DictComp, ast.GeneratorExp)) and any(r.id in _names(g.target) for g in a.generators) for a in _ancestors(r)) or any(isinstance(a, ast.Lambda) and r.id in {x.arg for x in a.args.args} for a in _ancestors(r)):
+                    continue  # bound by a comprehension / lambda of its own
+                S = enclosing_stmt(r)
+                if any(d in hdr for d in rd.reaching_at_stmt(S, r.id) if d is not None):
+                    seen.add(r.id)
+                    out.append((r.id, lp, r))
+    return out
+
+
+def skip_item_handlers(fi):
+    """(loop target text, exception type text) for loops whose body holds a try with a handler that only skips the current item"""
+    out = []
+    for lp in own_nodes(fi.node):
+        if isinstance(lp, ast.For):
+            for s in lp.body:
+                if isinstance(s, ast.Try):
+                    for h in s.handlers:
+                        if all(isinstance(x, (ast.Continue, ast.Pass)) for x in h.body):
+                            out.append((ast.unparse(lp.target), ast.unparse(h.type) if h.type else ""))
+    return out
+
+
+def loop_scope_rule(ctx, repo, rule_id, modules):
+    ctx.rule(rule_id, "what belongs to one item stays inside the loop over the items: (a) a loop variable is not read after its loop (the code then acts on the last item only) - except the uses confirmed on the reviewed tree (rules/tables/loop_scope.json); (b) a `try: ... except X: continue` that skips one item of a loop is not widened to a `try` around the whole loop (the first item that raises X would then end the loop for all the remaining items)")
+    table = json.load(open(os.path.join(TABLES, "loop_scope.json")))
+    n = 0
+    for mod in modules:
+        m = repo.module(mod)
+        allowed = {tuple(x) for x in table.get("read_after", {}).get(mod, [])}
+        skips = table.get("skip_handlers", {}).get(mod, {})
+        for fi in m.all_functions():
+            try:
+                hits = loop_targets_read_after(repo, fi)
+            except Exception:
+                hits = []
+            n += 1
+            for v, lp, r in hits:
+                if (fi.qualname, v) in allowed:
+                    continue
+                ctx.fail(rule_id, fi, enclosing_stmt(r), "`%s`, the variable of the loop `for %s in %s`, is read at line %d after the loop has ended: the statement acts on the last item only (a block that was inside the loop has been moved out of it?)" % (v, ast.unparse(lp.target), ast.unparse(lp.iter)[:50], r.lineno), stmt_text="after-loop:%s" % v)
+            for lt, exc in skips.get(fi.qualname, []):
+                now = skip_item_handlers(fi)
+                if (lt, exc) in [tuple(x) for x in now]:
+                    continue
+                # the loop still exists but now sits inside a try that catches the same exception
+                for lp in own_nodes(fi.node):
+                    if isinstance(lp, ast.For) and ast.unparse(lp.target) == lt:
+                        wide = [a for a in _ancestors(lp) if isinstance(a, ast.Try) and any((ast.unparse(h.type) if h.type else "") == exc or h.type is None for h in a.handlers) and any(lp is s or any(lp is d for d in ast.walk(s)) for s in a.body)]
+                        if wide:
+                            ctx.fail(rule_id, fi, wide[0], "the handler `except %s` that skipped one item of `for %s in ...` now encloses the whole loop: the first item that raises %s ends the loop, and the remaining items are silently not processed" % (exc, lt, exc), stmt_text="handler-widened:%s" % lt)
+    ctx.note(rule_id, "%d functions inspected" % n)
+    if n:
+        ctx.ok(rule_id, ", ".join(modules), "no loop variable newly read after its loop, no skip-item handler widened, in %d functions" % n)
